@@ -34,6 +34,8 @@ func init() {
 //
 // Leg (a) c49Histories: sequential histories of Store/Delete/Load/Exists/Stat/List on the
 // real ChordStorage over a real kv/memory KV against a flat file-store model.
+// Leg (c) c49Mix (c49mix.go): Lock/Unlock of two instances interleaved with Store/Delete, then
+// listings (both modes), Exists, Stat, Load of stored, deleted and merely locked names.
 // Leg (b) c49Locks (c49lock.go): interleavings of Lock/Unlock/Renew of several instances
 // sharing one KV plus logical clock advances, against a lease model.
 
@@ -591,14 +593,18 @@ func c49(c *report.Check) {
 	c49Locks(c)
 	t2 := time.Now()
 	c49BlockingLeg(c)
-	c.Set("wall_s_per_leg", []float64{t1.Sub(t0).Seconds(), t2.Sub(t1).Seconds(), time.Since(t2).Seconds()})
+	t3 := time.Now()
+	c49Mix(c)
+	c.Set("wall_s_per_leg", []float64{t1.Sub(t0).Seconds(), t2.Sub(t1).Seconds(), t3.Sub(t2).Seconds(), time.Since(t3).Seconds()})
 	classes, _ := c.Coverage["history_outcome_classes"].(int)
 	lclasses, _ := c.Coverage["lock_outcome_classes"].(int)
-	c.Set("distinct_nontrivial", classes+lclasses)
+	mclasses, _ := c.Coverage["mix_outcome_classes"].(int)
+	c.Set("distinct_nontrivial", classes+lclasses+mclasses)
 	h1, _ := c.Coverage["history_full_paths_all_ops"].(int)
 	h2, _ := c.Coverage["history_full_paths_mutators_only"].(int)
 	l, _ := c.Coverage["lock_interleavings"].(int)
-	c.Set("evaluations", h1+h2+l)
+	mx, _ := c.Coverage["mix_histories"].(int)
+	c.Set("evaluations", h1+h2+l+mx)
 	c.Set("exhaustive", true)
 	var samples []any
 	if s, ok := c.Coverage["history_samples"].([]any); ok {
@@ -607,8 +613,11 @@ func c49(c *report.Check) {
 	if s, ok := c.Coverage["lock_samples"].([]any); ok {
 		samples = append(samples, s...)
 	}
+	if s, ok := c.Coverage["mix_samples"].([]any); ok {
+		samples = append(samples, s...)
+	}
 	c.Set("samples", samples)
-	c.Set("rule", fmt.Sprintf("(a) every history of length 1..%v over all %v operations {store 5 keys x 3 values, delete, load, exists, stat on the 5 keys %q; non-recursive list of %q; recursive list of %q}, each on a fresh ChordStorage over a fresh kv/memory KV, last step judged (prefixes are histories of their own) and, for lengths <= 3, all %v observers then applied and judged on the reached state; every mutator-only history of length 1..%v with last step and observer battery judged; (b) every interleaving of length %v of {X.Lock (single Acquire attempt), X.Unlock, X.RenewLockLease, clock advance 0.6*TTL} over instances sharing one KV, see lock_rule; class = (operation, outcome, number of stored keys) / (event, outcome, lease state)",
+	c.Set("rule", fmt.Sprintf("(a) every history of length 1..%v over all %v operations {store 5 keys x 3 values, delete, load, exists, stat on the 5 keys %q; non-recursive list of %q; recursive list of %q}, each on a fresh ChordStorage over a fresh kv/memory KV, last step judged (prefixes are histories of their own) and, for lengths <= 3, all %v observers then applied and judged on the reached state; every mutator-only history of length 1..%v with last step and observer battery judged; (b) every interleaving of length %v of {X.Lock (single Acquire attempt), X.Unlock, X.RenewLockLease, clock advance 0.6*TTL} over instances sharing one KV, see lock_rule; (c) lock/unlock of two instances interleaved with store/delete, see mix_rule; class = (operation, outcome, number of stored keys) / (event, outcome, lease state)",
 		c.Coverage["history_depth_all_ops"], c.Coverage["history_ops_alphabet"], c49Keys, c49ListPrefixes, c49RecListPrefixes, c.Coverage["history_observer_battery_size"], c.Coverage["history_depth_mutators"], c.Coverage["lock_depth"]))
 	c.Assume("file-store reference: a flat map key->value; a directory exists iff a stored key lies below it; one key (d/s) is both a stored key and the parent of another (d/s/x): it must be listed once; listing a missing directory may yield an empty list or fs.ErrNotExist; results of recursive listings, Modified times and the return value of deleting an absent key are not compared (statement silent)")
 	c.Assume("the empty value is stored as a non-nil zero-length slice; a directory child that holds only zero-length values may or may not be listed (the KV contract treats empty simple values as absent) - not judged")
@@ -638,5 +647,7 @@ func c49Replay(c *report.Check, raw []byte) {
 		c49LockReplay(c, r)
 	case "blocking":
 		c49BlockingLeg(c)
+	case "mix":
+		c49MixReplay(c, r)
 	}
 }
